@@ -315,7 +315,7 @@ def _expand(exp, lay):
 
     def expander(path):
         head, sep, rest = path.partition("/")
-        where = exp.get(head)
+        where = exp.get(head) if head.startswith("~") else None
         if where is None:
             return path
         return targets[where] + sep + rest
@@ -403,6 +403,10 @@ def make_backing(case, lay, jail):
     from breezy.bzr.smart import server
     base_path = server._local_path_for_transport(
         dromedary.get_transport_from_path(lay.served))
+    if case["exp"].get("nobase"):
+        # what the factory sees for a transport without a local path: no
+        # userdir filter, the chroot alone confines
+        base_path = None
     f = server.BzrServerFactory(userdir_expander=_expand(case["exp"], lay),
                                 get_base_path=lambda t: base_path)
     f._make_backing_transport(jail)
@@ -709,11 +713,16 @@ ENC_DOT = ["%2e%2e", "%2E%2E", "%2e.", ".%2E", "%252e%252e", "%252E.",
            "%25252e%25252e"]
 ENC_SEP = ["%2F", "..%2F", "%2f..", "..%2f..", "%5C", "..%5c", "..%5C..",
            "..%2Fsecret.txt", "..%2Fsibling", "sub%2F..%2F..%2Fsecret.txt",
-           "..%2F..%2Fsecret.txt", "%2E%2E%2Fsecret.txt", "..%2F.bzr"]
+           "..%2F..%2Fsecret.txt", "%2E%2E%2Fsecret.txt", "..%2F.bzr",
+           # encoded separators without any literal '..'
+           "%2e%2e%2Fsecret.txt", "%2e%2e%2F%2e%2e%2Fsecret.txt",
+           "%2e%2e%5Csecret.txt", "sub%2F%2e%2e%2F%2e%2e%2Fsibling",
+           "%2e%2e%2Fsibling%2F.bzr%2Fbranch-format", "%2e%2e%2fserved-evil"]
 DOUBLE = ["%252F", "..%252F", "..%252f..", "%25252F", "..%25252F", "%255C",
           "..%255c..", "..%252Fsecret.txt", "..%252F..%252Fsecret.txt",
           "sub%252F..%252F..%252Fsibling", "%252e%252e%252Fsecret.txt",
-          "..%25252Fsecret.txt"]
+          "..%25252Fsecret.txt", "%252e%252e%252Fsecret.txt",
+          "%252e%252e%252F%252e%252e%252Fsibling", "%252e%252e%255Csecret.txt"]
 TILDE = ["~", "~user", "~evil", "~/..", "~user%2F.."]
 ODD = ["\x00", "%00", "\\", "..\\", "..\\..", "%", "%zz", " ", "a" * 300,
        "%c0%ae%c0%ae", "%u002e%u002e", "..;", "...", ".. ", "\n", "\t",
@@ -795,6 +804,8 @@ def gen_case(draw, tier):
         where = st.sampled_from(["inside", "outside", "prefix", "system",
                                  "parent"])
         case["exp"] = {"~": draw(where), "~user": draw(where)}
+        if draw(st.sampled_from([False, False, True])):
+            case["exp"]["nobase"] = True
     return case
 
 
